@@ -32,6 +32,11 @@ pub trait Observer {
     fn on_iter(&mut self, _buf: &[u8], _base: usize, _frames: &[(usize, usize)], _consumed: usize, _nexts: usize) -> Result<(), Violation> {
         Ok(())
     }
+    /// `consumed()` as read after EVERY `next()` call of one iterator pass (the last entry belongs
+    /// to the call that returned None)
+    fn on_iter_marks(&mut self, _buf: &[u8], _base: usize, _marks: &[usize]) -> Result<(), Violation> {
+        Ok(())
+    }
     /// a chunk was appended (before scanning)
     fn on_chunk(&mut self, _have: usize, _size: usize) {}
 }
@@ -207,6 +212,7 @@ fn drive_v3(stream: &[u8], a: usize, bounds: &[usize], prop: &str, obs: &mut dyn
         tail.extend_from_slice(&stream[have..end]);
         have = end;
         let mut frames: Vec<(usize, usize)> = Vec::new();
+        let mut marks: Vec<usize> = Vec::new();
         let mut nexts = 0usize;
         let c;
         {
@@ -220,14 +226,19 @@ fn drive_v3(stream: &[u8], a: usize, bounds: &[usize], prop: &str, obs: &mut dyn
                     Some(f) => {
                         let rs = rel_start(&tail, &f);
                         frames.push((rs, f.frame_len()));
+                        marks.push(it.consumed());
                     }
-                    None => break,
+                    None => {
+                        marks.push(it.consumed());
+                        break;
+                    }
                 }
             }
             c = it.consumed();
         }
         out.scans += nexts as u64;
         obs.on_iter(&tail, base, &frames, c, nexts)?;
+        obs.on_iter_marks(&tail, base, &marks)?;
         if c > tail.len() {
             return Err(breach(prop, "C05.b", format!("iterator consumed {} > buffer length {} at abs {}", c, tail.len(), base)));
         }
